@@ -46,9 +46,9 @@ theorem containsAsync_eq (t : TraitItem) : t.containsAsync = traitContainsAsync 
   | nil => rfl
   | cons m rest ih =>
     cases m with
-    | fn f => simp [List.filterMap_cons, List.any_cons, ih]
-    | type_ => simpa [List.filterMap_cons, List.any_cons] using ih
-    | other => simpa [List.filterMap_cons, List.any_cons] using ih
+    | fn f => simp only [List.filterMap_cons, TraitMember.fn?, List.any_cons, ih]
+    | type_ => simp only [List.filterMap_cons, TraitMember.fn?, List.any_cons, ih, Bool.false_or]
+    | other => simp only [List.filterMap_cons, TraitMember.fn?, List.any_cons, ih, Bool.false_or]
 
 /-- same signature up to the names of typed parameters -/
 theorem sigSame_of_sameShape (sig : Sig) (ins : List FnArg) (h : sameShape sig.inputs ins) :
